@@ -83,7 +83,7 @@ theorem append_ne_of_mism {p q : Str} (h : mism p q = true) (s t : Str) : p ++ s
 theorem takeWhile_append_stop (p : Char → Bool) (k : Str) (y : Char) (r : Str)
     (hk : ∀ x ∈ k, p x = true) (hy : p y = false) : (k ++ y :: r).takeWhile p = k := by
   induction k with
-  | nil => simp [List.takeWhile, hy]
+  | nil => simp [hy]
   | cons a k ih =>
     have ha : p a = true := hk a (by simp)
     simp only [List.cons_append, List.takeWhile_cons, ha, if_true]
